@@ -34,7 +34,7 @@ RULE = (
     "(quick) / 0..6 (thorough). non-trivial = pair with overlapping footprints or a defined plane side; distinct = (kind, class, mode, frame)"
 )
 ASSUMPTIONS = ["positive box sizes, yaw-only rotations, finite numbers", "IoU tolerance 1e-8 absolute, distances 1e-9 + 1e-7 relative"]
-DECIDING = ["MatchingMethod.events_judged", "C06.symmetry_checked", "C06.rotation_checked", "C06.translation_checked", "C06.roi_pairs", "C06.plane_checked"]
+DECIDING = ["MatchingMethod.events_judged", "C06.symmetry_checked", "C06.rotation_checked", "C06.translation_checked", "C06.roi_pairs", "C06.plane_checked", "C06.derived_checked"]
 JOBS = {"quick": 4, "thorough": 14}
 IOU_TOL = 1e-8
 
@@ -246,10 +246,51 @@ def random_rois(ctx: Ctx, n: int) -> None:
         ctx.case(("roi_random", v["iou2d"] > 0), nontrivial=v["iou2d"] > 0)
 
 
+def derived_pairs(ctx: Ctx, n: int) -> None:
+    """Objects whose pose is replaced after scores were already computed on them (the library's own frame conversion
+    and interpolation helpers copy an object and overwrite its state): every score must follow the current pose."""
+    from perception_eval.common import dataset as ds_mod
+    from perception_eval.common.geometry import interpolate_object_list
+    from perception_eval.common.transform import TransformDict
+
+    for idx in ctx.indices("derived", n):
+        r = ctx.rng("derived", idx)
+        cls = r.choice(["identical", "nested", "partial", "partial", "disjoint"])
+        a, b = gen_pair(r, cls)
+        ctx.begin_case("derived", idx, cls=cls, a=a, b=b)
+        with ctx.case_guard("derived"):
+            e, g = O.obj3d(*a, uuid="e"), O.obj3d(*b, uuid="g")
+            v0 = values(e, g)  # footprints / scores computed once on the originals
+            ego_a = O.ego2map((r.uniform(-300, 300), r.uniform(-300, 300), 0.0), O.rand_yaw(r))
+            ego_b = O.ego2map((r.uniform(-300, 300), r.uniform(-300, 300), 0.0), O.rand_yaw(r))
+            em, gm = ds_mod.convert_objects_to_global([e, g], ego_a)
+            for o in (em, gm):
+                o.frame_id = FrameID.MAP
+            vm = values(em, gm, TransformDict([ego_a]))  # judged by the tap against the *current* poses
+            ctx.check(abs(vm["iou2d"] - v0["iou2d"]) <= 10 * IOU_TOL and abs(vm["iou3d"] - v0["iou3d"]) <= 10 * IOU_TOL and close(vm["cd"], v0["cd"], 1e-8, 1e-9), "C06/score_changes_under_common_rigid_motion_of_derived_objects", dict(cls=cls, before=v0, after=vm), "MatchingMethod")
+            eb, gb = ds_mod.convert_objects_to_base_link([em, gm], ego_b)
+            for o in (eb, gb):
+                o.frame_id = FrameID.BASE_LINK
+            values(eb, gb)
+            # a twin built from scratch at the derived pose scores 1 / 0 against the derived object
+            be = O.box_of(eb)
+            twin = O.obj3d(*be)
+            vt = values(twin, eb)
+            ctx.check(abs(vt["iou2d"] - 1.0) <= 10 * IOU_TOL and abs(vt["cd"]) <= 1e-6 and abs(vt["pd"]) <= 1e-6, "C06/identical_boxes_not_extreme_scores", dict(cls="derived_twin", v=vt), "MatchingMethod")
+            # interpolation between two poses
+            g2 = O.obj3d(b[0] + r.uniform(-5, 5), b[1] + r.uniform(-5, 5), b[2], G.wrap_pi(b[3] + r.uniform(-1, 1)), b[4], b[5], b[6], uuid="g")
+            values(e, g2)
+            gi = interpolate_object_list([g], [g2], 100, 200, r.choice([100, 130, 200]))[0]
+            values(e, gi)
+            ctx.count("C06.derived_checked")
+            ctx.case(("derived", cls), nontrivial=True)
+
+
 def run(ctx: Ctx) -> None:
     with Taps(ctx) as taps:
         install(taps, ctx)
         box_pairs(ctx, 1500 if ctx.quick else 120000)
+        derived_pairs(ctx, 150 if ctx.quick else 15000)
         roi_pairs(ctx, 4 if ctx.quick else 6)
         random_rois(ctx, 300 if ctx.quick else 20000)
         ctx.notes["taps"] = taps.installed
